@@ -519,6 +519,12 @@ where
                     self.mode.set(InsertionMode::BeforeHtml);
                     return tokenizer::TokenSinkResult::Continue;
                 } else {
+                    if self.mode.get() == InsertionMode::InTableText {
+                        // A DOCTYPE is "anything else" there: the pending text is flushed, and the
+                        // original insertion mode then ignores the token like every other mode.
+                        self.flush_pending_table_text();
+                        self.mode.set(self.orig_mode.take().unwrap());
+                    }
                     self.sink.parse_error(if self.opts.exact_errors {
                         Cow::from(format!("DOCTYPE in insertion mode {:?}", self.mode.get()))
                     } else {
